@@ -4,7 +4,7 @@ writer builds for hits, hold heads and hold tails are a `map` over the lists; ev
 row's own position whatever denominator `find_lcm` gave its line (`slot_roundtrip`), so the objects of the written
 file are the rows' (channel, measure, beat, value) — `find_lcm` is order dependent, the objects are not.
 -/
-import Reamber.Props.C05
+import Reamber.Lemmas.BMSWrite
 
 namespace Reamber.PermInv
 
@@ -152,5 +152,131 @@ theorem cells_objects (thr : Nat) (rows : List WRow) (hrow : ∀ r ∈ rows, r.s
     rw [List.map_map]; rfl
   rw [this, List.map_fst_zip]
   rw [hlen]; simp
+
+/-! ### the rows of the writer and the objects of its cells (used by C15's `write_bms_perm` and C05's assembly) -/
+
+/-- the rows `BMSMap._write_notes` builds for hits, hold heads and hold tails -/
+def bmsNoteRows (cs : List BcSnap) (lay : Layout) (dflt : Bytes) (c : BMS.WChart) : List WRow :=
+  c.hits.map (fun h => ⟨posFn cs h.offset, (channelOf lay h.col).getD [], sampleId c.samples dflt h.sample⟩) ++
+  c.holds.map (fun h => ⟨posFn cs h.offset, (channelOf lay h.col).getD [], sampleId c.samples dflt h.sample⟩) ++
+  c.holds.map (fun h => ⟨posFn cs h.tail, (channelOf lay h.col).getD [], c.lnEnd⟩)
+
+/-- … and for the tempo rows: row `i` is the channel-08 object `base36(i+1)` at the position of its own offset -/
+def bmsTempoRows (cs : List BcSnap) (lay : Layout) (c : BMS.WChart) : List WRow :=
+  (zipIdxFrom 0 (c.bpms.map (fun b => posFn cs b.offset))).map (fun p => ⟨p.2, lay.exbpmCh, base36 (p.1 + 1)⟩)
+
+/-- what the property's quantifier grants: 4-beat metronome rows, columns the layout has, times at or after the first
+tempo point -/
+structure BmsOk (cs : List BcSnap) (lay : Layout) (c : BMS.WChart) : Prop where
+  met : ∀ b ∈ c.bpms, b.met = defMet
+  cols : (∀ h ∈ c.hits, (channelOf lay h.col).isSome = true) ∧ (∀ h ∈ c.holds, (channelOf lay h.col).isSome = true)
+  times : (∀ h ∈ c.hits, 0 ≤ h.offset) ∧ (∀ h ∈ c.holds, 0 ≤ h.offset ∧ 0 ≤ h.tail) ∧ (∀ b ∈ c.bpms, 0 ≤ b.offset)
+  met4 : ∀ x ∈ cs, x.met = 4
+
+/-- **The objects of the written BMS file are the rows' objects.**  For a chart whose tempo rows are, in ANY order, the
+stored form of a tempo-change list in C05's domain: `_write_notes` succeeds, and the by-the-book objects of its cells
+(channel, measure, beat `4·idx/den`, id — `written_objects`) are, cell by cell, the (channel, measure, beat, id) of the
+rows: the denominators `find_lcm` assigns depend on the row order, the objects do not. -/
+theorem writeCells_objects (cs : List BcSnap) (hwf : wfChanges cs = true) (hs : strictSnaps cs = true)
+    (h0 : firstAtZero cs = true) (hgc : gridCompatible (grid defaultMaxDiv) cs = true) (hm : metronomeOk cs = true)
+    (lay : Layout) (dflt : Bytes) (c : BMS.WChart) (hp : c.bpms.Perm (tmOf 0 cs)) (hok : BmsOk cs lay c) :
+    ∃ cells, writeCells defaultGrid lay dflt c = .ok cells ∧
+      cells.map cellObj = (bmsNoteRows cs lay dflt c).map rowObj ++ (bmsTempoRows cs lay c).map rowObj := by
+  have hsorted := sortedSnaps_of_strict hs
+  have hg : GridOK defaultGrid := gridOK_grid (by decide)
+  have hgc' : gridCompatible defaultGrid.toList cs = true := by simpa [defaultGrid] using hgc
+  have hsort : sortBcOff c.bpms = tmOf 0 cs := (tempo_rows_positions hg 0 cs hwf hs h0 hgc' hm c.bpms hp).1
+  have hne : cs ≠ [] := by intro e; subst e; simp [firstAtZero] at h0
+  have PM : ∀ t : Rat, 0 ≤ t → (posFn cs t).met = some 4 :=
+    fun t ht => posFn_met cs hwf hsorted hgc hm hok.met4 t ht hne
+  have hany : (c.bpms.any fun b => decide (b.met ≠ defMet)) = false := by
+    rw [List.any_eq_false]
+    intro b hb; simp [hok.met b hb]
+  have S := fun ts hts => snaps_pointwise cs hwf hsorted h0 hgc hm ts hts
+  have s1 := S (c.hits.map (·.offset)) (by
+    intro t ht; obtain ⟨h, hh, rfl⟩ := List.mem_map.mp ht; exact hok.times.1 h hh)
+  have s2 := S (c.holds.map (·.offset)) (by
+    intro t ht; obtain ⟨h, hh, rfl⟩ := List.mem_map.mp ht; exact (hok.times.2.1 h hh).1)
+  have s3 := S (c.holds.map (·.tail)) (by
+    intro t ht; obtain ⟨h, hh, rfl⟩ := List.mem_map.mp ht; exact (hok.times.2.1 h hh).2)
+  have s4 := S (c.bpms.map (·.offset)) (by
+    intro t ht; obtain ⟨b, hb, rfl⟩ := List.mem_map.mp ht; exact hok.times.2.2 b hb)
+  have m1 := mkRows_map lay c.hits (fun h => posFn cs h.offset) (·.col) (fun h => sampleId c.samples dflt h.sample) hok.cols.1
+  have m2 := mkRows_map lay c.holds (fun h => posFn cs h.offset) (·.col) (fun h => sampleId c.samples dflt h.sample) hok.cols.2
+  have m3 := mkRows_map lay c.holds (fun h => posFn cs h.tail) (·.col) (fun _ => c.lnEnd) hok.cols.2
+  refine ⟨(((bmsNoteRows cs lay dflt c ++ bmsTempoRows cs lay c).map slotOfRow).zip
+      (newDens Generated.BMS.lcmThreshold ((bmsNoteRows cs lay dflt c ++ bmsTempoRows cs lay c).map slotOfRow))).map
+      (fun p => cellOf p.1 p.2), ?_, ?_⟩
+  · unfold writeCells
+    simp only [hany, hsort, s1.1, s2.1, s3.1, s4.1, liftT, List.map_map, Function.comp_def, m1, m2, m3, bind, Except.bind,
+      Bool.false_eq_true, if_false]
+    rfl
+  · have hrows : ∀ r ∈ bmsNoteRows cs lay dflt c ++ bmsTempoRows cs lay c, r.snap.met = some 4 ∧ 0 ≤ r.snap.beat := by
+      intro r hr
+      simp only [bmsNoteRows, bmsTempoRows, List.mem_append, List.mem_map] at hr
+      rcases hr with ((⟨h, hh, rfl⟩ | ⟨h, hh, rfl⟩) | ⟨h, hh, rfl⟩) | ⟨p, hpm, rfl⟩
+      · exact ⟨PM _ (hok.times.1 h hh), s1.2 _ (List.mem_map_of_mem hh)⟩
+      · exact ⟨PM _ (hok.times.2.1 h hh).1, s2.2 _ (List.mem_map_of_mem hh)⟩
+      · exact ⟨PM _ (hok.times.2.1 h hh).2, s3.2 _ (List.mem_map_of_mem hh)⟩
+      · have : p.2 ∈ c.bpms.map (fun b => posFn cs b.offset) := by
+          have := List.mem_map_of_mem (f := (·.2)) hpm
+          rwa [zipIdxFrom_map_snd] at this
+        obtain ⟨b, hb, e⟩ := List.mem_map.mp this
+        simp only [← e]
+        exact ⟨PM _ (hok.times.2.2 b hb), s4.2 _ (List.mem_map_of_mem hb)⟩
+    have := cells_objects Generated.BMS.lcmThreshold (bmsNoteRows cs lay dflt c ++ bmsTempoRows cs lay c) hrows
+    simpa only [List.map_append] using this
+
+
+/-- the cells `_write_notes` builds from its rows (slot table, `find_lcm` per group, re-slotting) -/
+def cellsOfRows (rows : List WRow) : List WCell :=
+  (((rows.map slotOfRow).zip (newDens Generated.BMS.lcmThreshold (rows.map slotOfRow))).map (fun p => cellOf p.1 p.2))
+
+/-- `_write_notes` succeeds and its cells are `cellsOfRows` of the rows at the positions `posFn` (the explicit form
+behind `writeCells_objects`) -/
+theorem writeCells_eq (cs : List BcSnap) (hwf : wfChanges cs = true) (hs : strictSnaps cs = true)
+    (h0 : firstAtZero cs = true) (hgc : gridCompatible (grid defaultMaxDiv) cs = true) (hm : metronomeOk cs = true)
+    (lay : Layout) (dflt : Bytes) (c : BMS.WChart) (hp : c.bpms.Perm (tmOf 0 cs)) (hok : BmsOk cs lay c) :
+    writeCells defaultGrid lay dflt c = .ok (cellsOfRows (bmsNoteRows cs lay dflt c ++ bmsTempoRows cs lay c)) ∧
+    ∀ r ∈ bmsNoteRows cs lay dflt c ++ bmsTempoRows cs lay c, r.snap.met = some 4 ∧ 0 ≤ r.snap.beat := by
+  have hsorted := sortedSnaps_of_strict hs
+  have hg : GridOK defaultGrid := gridOK_grid (by decide)
+  have hgc' : gridCompatible defaultGrid.toList cs = true := by simpa [defaultGrid] using hgc
+  have hsort : sortBcOff c.bpms = tmOf 0 cs := (tempo_rows_positions hg 0 cs hwf hs h0 hgc' hm c.bpms hp).1
+  have hne : cs ≠ [] := by intro e; subst e; simp [firstAtZero] at h0
+  have PM : ∀ t : Rat, 0 ≤ t → (posFn cs t).met = some 4 :=
+    fun t ht => posFn_met cs hwf hsorted hgc hm hok.met4 t ht hne
+  have hany : (c.bpms.any fun b => decide (b.met ≠ defMet)) = false := by
+    rw [List.any_eq_false]
+    intro b hb; simp [hok.met b hb]
+  have S := fun ts hts => snaps_pointwise cs hwf hsorted h0 hgc hm ts hts
+  have s1 := S (c.hits.map (·.offset)) (by
+    intro t ht; obtain ⟨h, hh, rfl⟩ := List.mem_map.mp ht; exact hok.times.1 h hh)
+  have s2 := S (c.holds.map (·.offset)) (by
+    intro t ht; obtain ⟨h, hh, rfl⟩ := List.mem_map.mp ht; exact (hok.times.2.1 h hh).1)
+  have s3 := S (c.holds.map (·.tail)) (by
+    intro t ht; obtain ⟨h, hh, rfl⟩ := List.mem_map.mp ht; exact (hok.times.2.1 h hh).2)
+  have s4 := S (c.bpms.map (·.offset)) (by
+    intro t ht; obtain ⟨b, hb, rfl⟩ := List.mem_map.mp ht; exact hok.times.2.2 b hb)
+  have m1 := mkRows_map lay c.hits (fun h => posFn cs h.offset) (·.col) (fun h => sampleId c.samples dflt h.sample) hok.cols.1
+  have m2 := mkRows_map lay c.holds (fun h => posFn cs h.offset) (·.col) (fun h => sampleId c.samples dflt h.sample) hok.cols.2
+  have m3 := mkRows_map lay c.holds (fun h => posFn cs h.tail) (·.col) (fun _ => c.lnEnd) hok.cols.2
+  constructor
+  · unfold writeCells cellsOfRows
+    simp only [hany, hsort, s1.1, s2.1, s3.1, s4.1, liftT, List.map_map, Function.comp_def, m1, m2, m3, bind, Except.bind,
+      Bool.false_eq_true, if_false]
+    rfl
+  · intro r hr
+    simp only [bmsNoteRows, bmsTempoRows, List.mem_append, List.mem_map] at hr
+    rcases hr with ((⟨h, hh, rfl⟩ | ⟨h, hh, rfl⟩) | ⟨h, hh, rfl⟩) | ⟨p, hpm, rfl⟩
+    · exact ⟨PM _ (hok.times.1 h hh), s1.2 _ (List.mem_map_of_mem hh)⟩
+    · exact ⟨PM _ (hok.times.2.1 h hh).1, s2.2 _ (List.mem_map_of_mem hh)⟩
+    · exact ⟨PM _ (hok.times.2.1 h hh).2, s3.2 _ (List.mem_map_of_mem hh)⟩
+    · have : p.2 ∈ c.bpms.map (fun b => posFn cs b.offset) := by
+        have := List.mem_map_of_mem (f := (·.2)) hpm
+        rwa [zipIdxFrom_map_snd] at this
+      obtain ⟨b, hb, e⟩ := List.mem_map.mp this
+      simp only [← e]
+      exact ⟨PM _ (hok.times.2.2 b hb), s4.2 _ (List.mem_map_of_mem hb)⟩
 
 end Reamber.PermInv
